@@ -213,6 +213,8 @@ func (o Op) Coq(bk *Bks, secret string) string {
 	switch o.K {
 	case "req":
 		return lib.App("OReq", o.Req.Coq(bk, secret))
+	case "faultreq":
+		return lib.App("OFaultedReq", o.Req.Coq(bk, secret))
 	case "ws":
 		code := "None"
 		if o.CodeN >= 0 {
